@@ -2,8 +2,12 @@ package grpctunnel
 
 import (
 	"context"
+	"unicode/utf8"
+
 	"google.golang.org/grpc"
+	"google.golang.org/grpc/codes"
 	"google.golang.org/grpc/metadata"
+	"google.golang.org/grpc/status"
 )
 
 type (
@@ -57,4 +61,23 @@ func WithTunnelChannel(ch *TunnelChannel) grpc.CallOption {
 type tunnelChannelCallOption struct {
 	ch *TunnelChannel
 	grpc.EmptyCallOption
+}
+
+// validateMetadata reports whether the given metadata can be carried in a
+// tunnel frame. Keys and values travel as protobuf strings, which must be
+// valid UTF-8. Trying to send anything else would not just fail the RPC in
+// question: the frame could not be marshaled, and gRPC would then abort the
+// stream that carries the whole tunnel, and with it every other RPC.
+func validateMetadata(md metadata.MD) error {
+	for k, vals := range md {
+		if !utf8.ValidString(k) {
+			return status.Errorf(codes.Internal, "metadata key %q is not valid UTF-8 and cannot be sent over a tunnel", k)
+		}
+		for _, v := range vals {
+			if !utf8.ValidString(v) {
+				return status.Errorf(codes.Internal, "metadata key %q has a value that is not valid UTF-8 and cannot be sent over a tunnel", k)
+			}
+		}
+	}
+	return nil
 }
